@@ -91,8 +91,25 @@ def r2(cx):
     # hard delete barrier: the reader hides everything older than a hard delete.  Compaction drops an older hard delete
     # (rows hard_delete & !is_latest => not written).  It may only do so if it also drops everything that delete hid:
     # the decision for an older PUT must therefore depend on "a newer version of this key is a hard delete".
-    dropped_hd = any((not out) and c.get("hard_delete") is True and c.get("is_latest") is False for c, out, _ in rows)
-    kept_older_put = [c for c, out, _ in rows if out and c.get("is_latest") is False and c.get("hard_delete") is False and c.get("replace") is not True]
+    # context-wise: whenever the table drops a non-latest hard delete under some (versioning, retention, expiry) context with
+    # no snapshot open, it must also drop an older PLAIN version of the same key in that context -- the older version has a
+    # smaller timestamp, so it is expired whenever the marker is.  (The first form of this check compared `some row drops
+    # the marker` with `some row keeps an older put` across ALL contexts and could not see a repair.)
+    dropped_hd = False
+    kept_older_put = []
+    for t in cp.totals():
+        if not (t["hard_delete"] and not t["is_latest"] and t["cur_vis"] == "NoActive" and not t["latest_del_bottom"] and not t["has_replace"] and not t["older_than_replace"]):
+            continue
+        if cp.decide(rows, t) is not False:
+            continue
+        dropped_hd = True
+        for exp in ([True] if t["expired"] else [True, False]):
+            tp = dict(t)
+            tp.update({"hard_delete": False, "replace": False, "expired": exp})
+            if not cp.feasible(tp):
+                continue
+            if cp.decide(rows, tp) is True:
+                kept_older_put.append({k: tp[k] for k in ("versioning", "retention_pos", "expired", "bottom")})
     b = f.body("CompactionIterator::process_accumulated_versions")
     has_atom = False
     for l, (ty, nm) in enumerate(b.locals):
@@ -109,7 +126,7 @@ def r2(cx):
     cx.check(consistent, "an older hard delete is dropped only together with the versions it hides", "hard-delete-barrier-dropped", w,
              "compaction always drops a hard delete that is not the latest version, but keeps older versions of the key when versioning is on (%d such rows) and has no input "
              "telling it that a newer hard delete exists: after compaction the erased versions (and get_at answers) come back" % len(kept_older_put),
-             kept_rows=[dict(c) for c in kept_older_put[:4]])
+             kept_rows=kept_older_put[:4])
 
 
 @rule("C10", "C10.R3", "point-in-time read: all versions enumerated, candidate <=> visible, ts <= T, strictly newer than the candidate so far")
